@@ -46,6 +46,25 @@ def model(ex, path, cal, recv, args, node, st):
     if name in ("from", "into") and len(allargs) == 1 and a0 is not None and a0[0] == "lit" and isinstance(a0[1], bool) and (
             (cal.get("self_ty") if name == "from" else (cal.get("gargs") or [None, None])[-1]) in ("u8", "u16", "u32", "u64", "usize", "i8", "i16", "i32", "i64", "isize", "u128", "i128")):
         return _val(st, lit(int(a0[1])))
+    # ---- checked integer conversion: usize::try_from(n) on a signed n fails exactly when n < 0 (widths: trusted to fit —
+    #      the documented quantities are i32 / u16 / u8 and the targets used are at least as wide, or the caller asserts)
+    if name in ("try_from", "try_into") and len(allargs) == 1 and a0 is not None:
+        tgt = cal.get("self_ty") if name == "try_from" else None
+        src = (cal.get("gargs") or [None, None])[-1] if name == "try_from" else cal.get("self_ty")
+        if name == "try_into":
+            tgt = (cal.get("gargs") or [None, None])[-1]
+        ints_u = ("u8", "u16", "u32", "u64", "usize", "u128")
+        ints_s = ("i8", "i16", "i32", "i64", "isize", "i128")
+        if tgt in ints_u and src in ints_s and (tgt, src) in (("usize", "i32"), ("u64", "i32"), ("u32", "i32"), ("usize", "i64"), ("u64", "i64"), ("usize", "isize"), ("u128", "i32"), ("usize", "i16"), ("usize", "i8")):
+            neg = ex.binop("Lt", a0, lit(0))
+            if neg == TRUE:
+                return _val(st, ("err", app("try_from_error", a0)))
+            if neg == FALSE:
+                return _val(st, ("ok", app("cast", lit(tgt), a0)))
+            s_neg = st.fork()
+            ex.effect(st, "assume", (neg, FALSE), node=node)
+            ex.effect(s_neg, "assume", (neg, TRUE), node=node)
+            return [(st, ("val", ("ok", app("cast", lit(tgt), a0)))), (s_neg, ("val", ("err", app("try_from_error", a0))))]
     # ---- map entry API, desugared to the lookup and the insertion it stands for
     r_entry = _entry_model(ex, name, d, recv, args, node, st)
     if r_entry is not None:
@@ -436,7 +455,7 @@ def optres(ex, name, d, recv, args, node, st):
                 return [(st, ("val", args[0]))]
             if name == "unwrap_or_else":
                 return _apply(ex, args[0], (), st)
-            return [(st, ("val", app("default")))]
+            return [(st, ("val", _default_of(ex, node)))]
         s_ok = st
         s_err = st.fork()
         ex.effect(s_ok, "assume_ok", (v,), node=node)
@@ -466,7 +485,23 @@ def optres(ex, name, d, recv, args, node, st):
     return None
 
 
+def _default_of(ex, node):
+    """`Default::default()` of the node's type where that is a closed value: empty vector / string, 0, false"""
+    t = (ex.fx.ty(node) or "") if node.get("id", -1) >= 0 else ""
+    if t.startswith(("std::vec::Vec<", "std::collections::VecDeque<")):
+        return ("app", "array", ())
+    if t == "std::string::String":
+        return lit("")
+    if t in ("u8", "u16", "u32", "u64", "usize", "i8", "i16", "i32", "i64", "isize"):
+        return lit(0)
+    if t == "bool":
+        return lit(False)
+    return app("default")
+
+
 def _apply(ex, f, args, st):
+    if f[0] == "thunk":
+        return _apply(ex, f[1], (), st)      # a nullary closure driven once per element (resize_with, repeat_with)
     if f[0] == "closure":
         return ex.apply_closure(f, args, st)
     if f[0] == "fnref":
